@@ -71,6 +71,9 @@ pub fn json_stringify(
     args: &[JsValue],
 ) -> Result<Guarded, JsError> {
     let value = args.first().cloned().unwrap_or(JsValue::Undefined);
+    if !has_json_representation(&value) {
+        return Ok(Guarded::unguarded(JsValue::Undefined));
+    }
     // Second argument is replacer (not implemented, ignored)
     // Third argument is space/indent
     let indent = args.get(2).cloned().unwrap_or(JsValue::Undefined);
@@ -155,6 +158,16 @@ pub fn json_parse(
         return Ok(Guarded::with_guard(value, guard));
     }
     Ok(Guarded::unguarded(value))
+}
+
+/// `undefined`, functions and symbols have no JSON representation: JSON.stringify omits
+/// them from objects (and returns `undefined` for them at the top level).
+fn has_json_representation(value: &JsValue) -> bool {
+    match value {
+        JsValue::Undefined | JsValue::Symbol(_) => false,
+        JsValue::Object(obj) => !matches!(obj.borrow().exotic, ExoticObject::Function(_)),
+        _ => true,
+    }
 }
 
 /// Convert a JsValue to JSON, with public API for external callers (without circular detection)
@@ -259,13 +272,13 @@ fn js_value_to_json_with_visited(
                             drop(obj_ref); // Release borrow before recursive calls
 
                             for (key, val) in props {
-                                let json_val = js_value_to_json_with_visited(&val, visited)?;
-                                // Skip undefined values in objects
-                                if json_val != serde_json::Value::Null
-                                    || !matches!(val, JsValue::Undefined)
-                                {
-                                    map.insert(key, json_val);
+                                // Properties without a JSON representation (undefined,
+                                // functions, symbols) are omitted from objects
+                                if !has_json_representation(&val) {
+                                    continue;
                                 }
+                                let json_val = js_value_to_json_with_visited(&val, visited)?;
+                                map.insert(key, json_val);
                             }
                             serde_json::Value::Object(map)
                         }
